@@ -13,9 +13,15 @@ token's text and, for each ticket, the ORDERED list of the texts of the candidat
 tokens whose macaroon is what their text decodes to under `μ`.  It is DISCHARGED for the key
 resolver (`resolver_satisfies_hypothesis`, any `μ`): `verify` looks candidates up by ticket, tries
 them in the order presented (the first acceptable one wins) and never mixes tickets.
-`MintSynced μ` is the codec fact that the text `Attenuate`/`Discharge` print for a new token decodes
-to the token they store (for `μ = macOf`: the round trip `decode_encode_mac` of C11,
-`mint_synced_is_codec_roundtrip`); parsed tokens satisfy it by construction.
+The invariant behind the theorems is that every token's macaroon is what its text decodes to
+(`Synced macOf`): true of parsed tokens by construction, and of the tokens `Attenuate` / `Discharge`
+put into a bundle because the model defines these operations exactly where the printed text reads
+back as the stored token (`Bundle.readsBack`; `minted_tokens_are_synced`).  In Go the two cannot
+differ (a resource set is a map; the encoder sorts); a model value can be non-canonical (an unsorted
+resource-set list), and then the operation fails closed — `unsorted_resource_set_does_not_read_back`
+is the witness why this is needed.  The headline theorems therefore carry NO hypothesis about
+minting; the generic form `cache_transparent_from` (any decoder `μ`) keeps `MintSynced μ`, which
+`minted_tokens_are_synced` discharges for `μ = macOf`.
 
 Negative witnesses of the two defects found and repaired:
 * `f7_sharing_not_transparent` — the cache handed out the stored `*VerifiedMacaroon` itself (`.share`);
@@ -38,18 +44,17 @@ the candidates only through, per ticket, their ordered texts: replacing the cach
 direct one changes nothing.  The trace compared holds, for every step, what the operation returned
 (accepted / failed and the verified caveats, the validate result, the printed header, the error
 flag) and the complete state of EVERY bundle afterwards. -/
-theorem cache_transparent (P : Params) (hO : P.order = .byKid) (hV : PerKidFun macOf P.V) (hm : MintSynced macOf)
+theorem cache_transparent (P : Params) (hO : P.order = .byKid) (hV : PerKidFun macOf P.V)
     (pl : Bytes) (hdrs : List Str) (hist : List (Int × Op)) :
     run P hist (init pl hdrs) = run P (hist.map fun x => (x.1, x.2.direct)) (init pl hdrs) :=
-  run_transparent P hO hV hm hist _ _ rfl (inv_init P.V pl hdrs)
+  run_transparent P hO hV mintSynced_macOf hist _ _ rfl (inv_init P.V pl hdrs)
 
-/-- for the key resolver the hypothesis on the verifier is discharged: what remains is the codec
-round trip for freshly minted tokens -/
-theorem cache_transparent_key_resolver (R : Bundle.Resolver) (ttl : Int) (sc : Bundle.DischargeScope) (hm : MintSynced macOf)
+/-- for the key resolver the hypothesis on the verifier is discharged as well: NO hypothesis is left -/
+theorem cache_transparent_key_resolver (R : Bundle.Resolver) (ttl : Int) (sc : Bundle.DischargeScope)
     (pl : Bytes) (hdrs : List Str) (hist : List (Int × Op)) :
     run { V := R.oracle, ttl := ttl, scope := sc } hist (init pl hdrs)
       = run { V := R.oracle, ttl := ttl, scope := sc } (hist.map fun x => (x.1, x.2.direct)) (init pl hdrs) :=
-  run_transparent _ rfl (resolver_perKidFun R macOf) hm hist _ _ rfl (inv_init _ pl hdrs)
+  run_transparent _ rfl (resolver_perKidFun R macOf) mintSynced_macOf hist _ _ rfl (inv_init _ pl hdrs)
 
 /-- the same from any state that satisfies the invariant (token text without commas and decoding to
 the token's macaroon, every stored entry equal to the verifier's answer on its key), with the direct
@@ -120,10 +125,33 @@ theorem token_text_determines_macaroon :
     (∀ {μ : Str → Option M} {t : Tok}, Synced μ t → kidOf t = kidOfText μ t.str) :=
   ⟨parseToks_synced, macOf_macString, fun h => kidOf_synced h⟩
 
-/-- `MintSynced macOf` is the round trip of the token codec on what `Attenuate`/`Discharge` print -/
-theorem mint_synced_is_codec_roundtrip
-    (h : ∀ m m' bytes, Concrete.encode m = (m', some bytes) → Concrete.decode bytes = some m') : MintSynced macOf :=
-  mintSynced_of_roundtrip h
+/-- **minted tokens are synced**: whatever `Attenuate` and `Discharge` put into a bundle has, as its
+macaroon, what its text decodes to — the model defines them exactly where the printed text reads back
+as the stored token -/
+theorem minted_tokens_are_synced : MintSynced macOf := mintSynced_macOf
+
+/-- what "defined" means for an attenuation: the text is the printed encoding of `Add`'s result on the
+clone, and decoding that encoding gives back the macaroon that is stored -/
+theorem attenuation_reads_back (items : List (AddItem Bytes)) (m : M) (s' : Str) (m' : M) (added : CS)
+    (h : Bundle.attMac items m = some (s', m', added)) :
+    ∃ bytes, s' = macString bytes ∧ Concrete.decode bytes = some m' ∧ macOf s' = some m' := by
+  obtain ⟨_, bytes, _, _, _, rfl, _, hdec⟩ := attMac_spec items m s' m' added h
+  exact ⟨bytes, rfl, hdec, by rw [macOf_macString]; exact hdec⟩
+
+/-- **why the guard (or a well-formedness hypothesis) is needed.**  A token holding the resource set
+`[("b",1),("a",1)]` and one holding `[("a",1),("b",1)]` print the same text (the encoder sorts); the
+text reads back as the sorted one; the two are different values.  An attenuation that stored the
+caller's unsorted list next to that text would break "the macaroon is what the text decodes to" for
+EVERY decoder — no `μ` is synced with both — and with it the value-level transparency statement (the
+cached and the direct run could hold different representations of one caveat set).  `readsBack`
+rejects exactly the unsorted one. -/
+theorem unsorted_items_break_value_transparency :
+    (Concrete.encode unsortedTok).2 = (Concrete.encode sortedTok).2 ∧
+    (Concrete.encode unsortedTok).2.bind Concrete.decode = some sortedTok ∧
+    unsortedTok ≠ sortedTok ∧
+    (∀ bytes, (Concrete.encode unsortedTok).2 = some bytes → readsBack bytes unsortedTok = false ∧ readsBack bytes sortedTok = true) ∧
+    (∀ (μ : Str → Option M) (s : Str), ¬ (Synced μ (.unverified s unsortedTok) ∧ Synced μ (.unverified s sortedTok))) :=
+  unsorted_resource_set_does_not_read_back
 
 /-- **hit_conditions.**  A cached acceptance is used only if an entry with exactly that key is
 present and `now < expiry`; and (key injectivity) only for the identical permission text presented
@@ -248,6 +276,25 @@ example (μ : Str → Option M) : PerKidFun μ toyV := by
 /-- the verifier hypothesis holds for every key resolver -/
 example (R : Bundle.Resolver) : PerKidFun macOf R.oracle := resolver_perKidFun R macOf
 
+/-- every hypothesis of the generic theorem is met for the real decoder … -/
+example (R : Bundle.Resolver) : PerKidFun macOf R.oracle ∧ MintSynced macOf ∧ (∀ pl hdrs, Inv macOf R.oracle (init pl hdrs)) :=
+  ⟨resolver_perKidFun R macOf, mintSynced_macOf, fun pl hdrs => inv_init _ pl hdrs⟩
+
+/-- … and the headline theorem applies as it stands to a concrete history over two bundles (any two
+headers, any key resolver): a cached verification of each (the second one a hit when the headers
+agree), an attenuation with a resource-set caveat, a discharge with a callback that adds a caveat, a
+re-verification after the entry expired, evictions and header reads in between -/
+def sampleHistory : List (Int × Op) :=
+  [(0, .verify 0 .cached), (1, .verify 1 .cached), (2, .validate 1 []),
+   (3, .attenuate 0 [.plain (.volumes [([97], 1), ([98], 1)]), .plain (.action 1)]),
+   (4, .header 0), (5, .discharge 1 [66] [1, 2, 3] (fun _ => some [.plain (.action 1)]) [[7]]),
+   (6, .evict ['k']), (20, .verify 0 .cached), (21, .verify 1 .direct), (22, .filter 1 .isVerified), (23, .header 1)]
+
+example (R : Bundle.Resolver) (pl : Bytes) (h₁ h₂ : Str) :
+    run { V := R.oracle, ttl := 10 } sampleHistory (init pl [h₁, h₂])
+      = run { V := R.oracle, ttl := 10 } (sampleHistory.map fun x => (x.1, x.2.direct)) (init pl [h₁, h₂]) :=
+  cache_transparent_key_resolver R 10 .thatLocation pl [h₁, h₂] sampleHistory
+
 /-- the invariant holds initially, for any headers -/
 example (V : Bundle.Oracle) (pl : Bytes) (hdrs : List Str) : Inv macOf V (init pl hdrs) := inv_init V pl hdrs
 
@@ -294,7 +341,9 @@ end Macaroon.Props.C14
 #print axioms Macaroon.Props.C14.same_nonce_variants_have_distinct_keys
 #print axioms Macaroon.Props.C14.token_text_has_no_separator
 #print axioms Macaroon.Props.C14.token_text_determines_macaroon
-#print axioms Macaroon.Props.C14.mint_synced_is_codec_roundtrip
+#print axioms Macaroon.Props.C14.minted_tokens_are_synced
+#print axioms Macaroon.Props.C14.attenuation_reads_back
+#print axioms Macaroon.Props.C14.unsorted_items_break_value_transparency
 #print axioms Macaroon.Props.C14.hit_conditions
 #print axioms Macaroon.Props.C14.expired_entry_not_used
 #print axioms Macaroon.Props.C14.hit_does_not_extend_life
